@@ -57,6 +57,11 @@ def _default_stateful():
     return out
 
 
+class ContractMisuse(Exception):
+    """A contract cannot be applied soundly at a call site (its postcondition is unsatisfiable there).  Reported as a checker fault:
+    never a verdict about the code."""
+
+
 def _rel_line(line, fnode):
     """Line of a raise relative to the `def` line of the function under verification ("+12"): edits above the function do not
     rename the obligation."""
@@ -208,8 +213,19 @@ class Contract:
         if self.modifies:
             self.modifies(ctx, s)
         s.result = self.result(ctx, s) if self.result else None
-        for lab, t in self.labelled(self.ensures(s)):
+        ens = self.labelled(self.ensures(s))
+        # vacuity guard: a postcondition that is FALSE at this call site (typically a clause written for the verification run and
+        # evaluated on the caller's state) would silently end the caller's path and take all its obligations with it
+        bad = [lab for lab, t in ens if z3.is_false(V.simp(t))]
+        if bad:
+            raise ContractMisuse(f"postcondition `{bad[0]}` of {self.frame_name} is literally false at a call site in "
+                                 f"{ctx.frames[-1] if ctx.frames else '?'} (a verify-mode clause assumed in apply mode?)")
+        live_before = ens and ctx.prune and ctx.feasible(z3.BoolVal(True))
+        for lab, t in ens:
             ctx.assume(t)
+        if live_before and not ctx.feasible(z3.BoolVal(True)):
+            raise ContractMisuse(f"the postconditions of {self.frame_name} contradict the caller's state at a call site in "
+                                 f"{ctx.frames[-1] if ctx.frames else '?'}: the caller's path would end vacuously")
         return s.result
 
     # ---- verification of the body
